@@ -163,9 +163,10 @@ def exclLegacy14 (k : RouterKind) (d : Doc) (r : Req) : Bool :=
 /-- finding #33 (both routers): a server variable's `enum` is not enforced -/
 def exclSrvEnum33 (d : Doc) (r : Req) : Bool := specOutcome true d r ≠ specOutcome false d r
 
-/-- finding #40 (gorillamux): a matching route that lacks the method hides a matching route that declares it -/
+/-- finding #40 (gorillamux): a matching route that lacks the method hides a matching route that declares it
+    (what "matches" for the router: server-variable enums are not consulted, see #33) -/
 def exclGorillaShadow40 (k : RouterKind) (d : Doc) (r : Req) : Bool :=
-  k = .gorilla && (specCands true d r).any (fun c => !c.declares) && (specCands true d r).any (·.declares)
+  k = .gorilla && (specCands false d r).any (fun c => !c.declares) && (specCands false d r).any (·.declares)
 
 def varThenLiteral : List STok → Bool
   | [] => false
